@@ -1,4 +1,4 @@
-(** C05 (injected faults) — an unmatched OPENING delimiter ([{], [$], [\(],
+(** C05 (injected faults) — an unmatched OPENING delimiter ([{], [$], [$$], [\(],
     [\[], [\begin{x}]).  At top level the construct it opens swallows the rest
     of the document and is not closed when the input ends: the strict parse
     fails with the general-nodes parser's "stop condition not met" error (6),
@@ -151,7 +151,7 @@ Proof. destruct (open_text_hd op) as (h & r & -> & _). destruct a; reflexivity. 
 Lemma open_inertf op : inertf (hd_error (open_text op)).
 Proof.
   destruct op as [|k|x]; [exact inertf_123| |exact inertf_92].
-  destruct k; [exact inertf_36 | exact inertf_92 | exact inertf_92].
+  destruct k; [exact inertf_36 | exact inertf_92 | exact inertf_92 | exact inertf_36].
 Qed.
 
 Lemma std_open_state cx ps op : Std cx ps -> Std cx (open_state cx ps op).
@@ -262,7 +262,8 @@ Section Open.
         destruct k; cbn [m_open app] in SK.
         - rewrite (impl_peek_dispatch ps s pos fws 36%N _ W SK space_36). exact D.
         - rewrite (impl_peek_dispatch ps s pos fws 92%N _ W SK space_92). exact D.
-        - rewrite (impl_peek_dispatch ps s pos fws 92%N _ W SK space_92). exact D. }
+        - rewrite (impl_peek_dispatch ps s pos fws 92%N _ W SK space_92). exact D.
+        - rewrite (impl_peek_dispatch ps s pos fws 36%N _ W SK space_36). exact D. }
       assert (T1 : impl_peek ps s (pos + length fws)
                    = TokOk (PLV.Tok.Tokenizer.mk (m_tok k) (m_open k) (pos + length fws)
                                (pos + length fws + length (m_open k)) [] [])).
@@ -270,7 +271,8 @@ Section Open.
         destruct k; cbn [m_open app] in SK0.
         - rewrite (impl_peek_dispatch ps s _ [] 36%N _ eq_refl SK0 space_36). cbn [length]. rewrite Nat.add_0_r. exact D.
         - rewrite (impl_peek_dispatch ps s _ [] 92%N _ eq_refl SK0 space_92). cbn [length]. rewrite Nat.add_0_r. exact D.
-        - rewrite (impl_peek_dispatch ps s _ [] 92%N _ eq_refl SK0 space_92). cbn [length]. rewrite Nat.add_0_r. exact D. }
+        - rewrite (impl_peek_dispatch ps s _ [] 92%N _ eq_refl SK0 space_92). cbn [length]. rewrite Nat.add_0_r. exact D.
+        - rewrite (impl_peek_dispatch ps s _ [] 36%N _ eq_refl SK0 space_36). cbn [length]. rewrite Nat.add_0_r. exact D. }
       pose proof (erule_tmath s cx _ ps k _ _ _ _ T1 E H) as E2.
       pose proof (erule_math s cx _ ps o st pos fws k _ _ OK (proj1 SD) WF T E2) as E3.
       refine (LIFT _ _ E3); lia.
